@@ -31,7 +31,15 @@ const prop = "C10"
 var yieldTable atomic.Value // []int
 var yieldCounter uint32
 
+// widenClose: histories that call CloseIdleConnections concurrently hold every close for a moment
+// (between giving the slot back and closing the socket), so that releases land while idle
+// connections are being closed.
+var widenClose int32
+
 func yieldPoint(point string) {
+	if point == "close:afterDec" && atomic.LoadInt32(&widenClose) != 0 {
+		time.Sleep(200 * time.Microsecond)
+	}
 	tb, _ := yieldTable.Load().([]int)
 	if len(tb) == 0 {
 		return
@@ -103,9 +111,10 @@ type Plan struct {
 	MaxConns          int         `json:"max_conns"`
 	WaitTimeout       int         `json:"max_conn_wait_timeout_ms"`
 	Goroutines        [][]ReqPlan `json:"goroutines"`
-	MaxConnDurationMs int         `json:"max_conn_duration_ms,omitempty"` // 0 = unlimited; on older connections the client announces Connection: close
-	DialFaults        []int       `json:"dial_faults"`                    // per dial: 0 ok, 1 error, 2 slow
-	Yields            []int       `json:"yield_table,omitempty"`          // action at the n-th pool lock boundary (mod len): 0 none, 1 Gosched, 2 20us, 3 300us, 4 2ms
+	MaxConnDurationMs int         `json:"max_conn_duration_ms,omitempty"`         // 0 = unlimited; on older connections the client announces Connection: close
+	CloseIdleAtUs     []int       `json:"close_idle_connections_at_us,omitempty"` // CloseIdleConnections() is called from another goroutine at these offsets
+	DialFaults        []int       `json:"dial_faults"`                            // per dial: 0 ok, 1 error, 2 slow
+	Yields            []int       `json:"yield_table,omitempty"`                  // action at the n-th pool lock boundary (mod len): 0 none, 1 Gosched, 2 20us, 3 300us, 4 2ms
 }
 
 // ---------------------------------------------------------------------------
@@ -401,6 +410,11 @@ func runPlan(p *Plan) (string, *world) {
 	}
 	opts := http1.ClientOptions{MaxConns: p.MaxConns, MaxConnWaitTimeout: time.Duration(p.WaitTimeout) * time.Millisecond, MaxIdleConnDuration: time.Hour, DialTimeout: time.Second,
 		MaxConnDuration: time.Duration(p.MaxConnDurationMs) * time.Millisecond}
+	if len(p.CloseIdleAtUs) > 0 {
+		atomic.StoreInt32(&widenClose, 1)
+	} else {
+		atomic.StoreInt32(&widenClose, 0)
+	}
 	yieldTable.Store(append([]int(nil), p.Yields...))
 	atomic.StoreUint32(&yieldCounter, 0)
 	cl := cli.New(opts, w.dial)
@@ -430,6 +444,20 @@ func runPlan(p *Plan) (string, *world) {
 			}
 		}
 	}()
+	if len(p.CloseIdleAtUs) > 0 {
+		wg.Add(1)
+		go func() {
+			defer wg.Done()
+			start := time.Now()
+			for _, at := range p.CloseIdleAtUs {
+				if d := time.Duration(at)*time.Microsecond - time.Since(start); d > 0 {
+					time.Sleep(d)
+				}
+				hc.CloseIdleConnections()
+				w.logf("CloseIdleConnections() returned")
+			}
+		}()
+	}
 	for gi, g := range p.Goroutines {
 		wg.Add(1)
 		go func(gi int, g []ReqPlan) {
@@ -677,6 +705,16 @@ func genPlan(t *rapid.T) *Plan {
 		p.Goroutines = append(p.Goroutines, rs)
 	}
 	p.MaxConnDurationMs = rapid.SampledFrom([]int{0, 0, 1, 4}).Draw(t, "maxConnDurationMs")
+	if rapid.IntRange(0, 2).Draw(t, "closeIdleConcurrently") == 0 {
+		at := 0
+		for i := rapid.IntRange(2, 10).Draw(t, "nCloseIdle"); i > 0; i-- {
+			at += rapid.SampledFrom([]int{0, 50, 100, 300, 1000, 3000}).Draw(t, "closeIdleGap")
+			p.CloseIdleAtUs = append(p.CloseIdleAtUs, at)
+		}
+		if p.MaxConns < 3 {
+			p.MaxConns = 3 // several idle connections to close while others are being released
+		}
+	}
 	if rapid.IntRange(0, 2).Draw(t, "perturb") > 0 {
 		for i := rapid.IntRange(1, 24).Draw(t, "yieldTableLen"); i > 0; i-- {
 			p.Yields = append(p.Yields, rapid.SampledFrom([]int{0, 0, 0, 1, 1, 2, 3, 4}).Draw(t, "yield"))
@@ -713,6 +751,9 @@ func classify(p *Plan) (bool, []string) {
 	}
 	if p.MaxConnDurationMs > 0 {
 		cls = append(cls, "max-conn-duration")
+	}
+	if len(p.CloseIdleAtUs) > 0 {
+		cls = append(cls, "concurrent-CloseIdleConnections")
 	}
 	nt := len(p.Goroutines) >= 2 && len(p.Goroutines) > p.MaxConns && faults >= 1
 	seen := map[string]bool{}
